@@ -427,3 +427,5 @@ def replay(case):
             pass
         os.chdir(old_cwd)
         shutil.rmtree(T, ignore_errors=True)
+
+MANIFEST['text'] += " Missing root directories, path-parameter (';') spellings and the download argument (decoys of that name outside the root) are part of the enumeration (12 root spellings)."
